@@ -10,6 +10,7 @@
 # position k, cancellation of a live iterator (close/throw) at any step.
 #
 from sim.core import (
+    bounded,
     ABSENT,
     HarnessError,
     Violation,
@@ -363,6 +364,9 @@ class Run(object):
             if a != b:
                 self.fail("iteration", op, a, b, {"kind": kind})
 
+    def entries_now(self, rec):
+        return len(self.models[rec["t"]])
+
     def open_iter(self, kind):
         t = self.trie
         if kind == "items":
@@ -392,7 +396,7 @@ class Run(object):
         self.q_len(op)
         if do_iter:
             for kind in ITER_KINDS:
-                self.judge_iteration(kind, list(self.open_iter(kind)), op)
+                self.judge_iteration(kind, bounded(self.open_iter(kind), len(self.model)), op)
         self.stats.state(state_text(self.model), nontrivial=bool(self.model))
 
     # -- one event ----------------------------------------------------------------
@@ -503,7 +507,7 @@ class Run(object):
             rec = self.iters.get(ev["it"])
             if rec is None:
                 return
-            n = ev.get("n", 1) if op == "iter_next" else 1 << 30
+            n = ev.get("n", 1) if op == "iter_next" else 4 * self.entries_now(rec) + 64
             done = False
             try:
                 while n > 0:
